@@ -20,6 +20,34 @@ CLAIMED = {
         design_ref="DESIGN.md section 5 C20"),
 }
 
+CLAIMED["C02"] = dict(
+    category="proof",
+    text="Theorems over the selection model (Model/Select.v, a line-by-line model of _collect_eligible_transitions / _select_transitions / can) for ALL "
+         "well-formed machines, configurations, guard oracles and events: the nominee of an active leaf is the first enabled candidate of the nearest "
+         "ancestor-or-self that has one (C02_nominee_nearest_first), every selected transition is such a nominee and is selected once "
+         "(C02_selected_is_nominee, C02_shared_ancestor_once), an event without nominee leaves the whole interpreter state unchanged (C02_unhandled_noop), "
+         "can() is exactly 'a nominee exists' (C02_can). The model is tied to the code by differential evaluation inside Coq of whole runs (both engines, "
+         "can() probed before every send) on selection-stress and random machines; a Python restatement of the property text is the monitor.",
+    technique="Coq proof over hand-written executable model + vm_compute correspondence (K-macro)",
+    design_ref="DESIGN.md section 5 C02")
+CLAIMED["C06"] = dict(
+    category="proof",
+    text="C06_eval_bool: for every guard expression without a missing predicate, at ANY nesting depth, evaluation equals the ordinary boolean meaning with "
+         "a raising predicate read as false; missing predicates reached by evaluation are errors, skipped ones are not consulted; stateIn is membership of "
+         "the designated state(s); eligible candidates of a bucket are exactly the true-guard ones in order. Tied to the code by K-macro on exhaustively "
+         "enumerated formulas (depth <= 2 over 10 atoms incl. falsy params) at 3 positions x 4 valuations x both operand spellings x guard/cond.",
+    technique="Coq proof (structural induction on guards) + vm_compute correspondence",
+    design_ref="DESIGN.md section 5 C06")
+CLAIMED["C10"] = dict(
+    category="proof",
+    text="C10_is_done_spec: done-ness computed by the engine equals the declarative definition (final; compound with done active child; parallel with "
+         "EVERY non-history region active and done) for all well-formed machines and configurations; a final state raises at most one done event, for "
+         "the nearest done ancestor declaring onDone (C10_fire_once/_nearest); completion is idempotent with machine-level output precedence; sends are "
+         "inert after completion on both engines. Stating the spec exposed a genuine defect (nested parallel regions), repaired by a fix: commit. "
+         "Tied to the code by K-macro on completion machines (all region completion orders, un-complete / re-complete, sends after completion).",
+    technique="Coq proof (fuel induction against an inductive spec) + vm_compute correspondence",
+    design_ref="DESIGN.md section 5 C10")
+
 PENDING_REASON = "not claimed yet: the check for this property is still being built in this round (DESIGN.md section 5 has the plan)"
 
 
